@@ -9,6 +9,7 @@ import (
 	"os"
 	"path/filepath"
 	"strings"
+	"sync"
 
 	"github.com/taskctl/taskctl/internal/vh/common"
 	"github.com/taskctl/taskctl/pkg/output"
@@ -194,8 +195,26 @@ func historyUnit(res *common.Result, target string, kmax, lmax int) {
 // c are plain succeeding tasks. Whatever makes the reference model of the task report an error must
 // cancel b, leave c alone and make Schedule report an error; a skipped or succeeding a blocks nothing.
 
+// lockedBuffer: stages a and c run concurrently and write to the runner's one stdout.
+type lockedBuffer struct {
+	mu sync.Mutex
+	b  bytes.Buffer
+}
+
+func (l *lockedBuffer) Write(p []byte) (int, error) {
+	l.mu.Lock()
+	defer l.mu.Unlock()
+	return l.b.Write(p)
+}
+
+func (l *lockedBuffer) String() string {
+	l.mu.Lock()
+	defer l.mu.Unlock()
+	return l.b.String()
+}
+
 func runPipe3(c TaskCase) (kind, desc string) {
-	var buf bytes.Buffer
+	var buf lockedBuffer
 	r, err := runner.NewTaskRunner()
 	if err != nil {
 		return "infra", err.Error()
